@@ -18,6 +18,7 @@ class Path:
         self.claims = []      # (kind 'EQ'|'LE'|'LT', name, l, r)
         self.outs = {}        # name -> id   (symbolic) / value (concrete)
         self.notes = {}
+        self.approx = []      # (name, l, r, class): |l-r| <= tolerance of the class (TRUNC claims)
         self.cvals = {}       # concrete mode: claim name -> (lv, rv)
 
 class Entry:
@@ -49,6 +50,12 @@ def load(fn):
             except ValueError:
                 path.cvals[p[1]] = (float.fromhex(p[2]), float.fromhex(p[3]))
                 path.claims.append((k, p[1], None, None))
+        elif k == 'AP':
+            try:
+                path.approx.append((p[1], int(p[2]), int(p[3]), p[4]))
+            except ValueError:
+                path.cvals[p[1]] = (float.fromhex(p[2]), float.fromhex(p[3]))
+                path.approx.append((p[1], None, None, p[4]))
         elif k == 'OUT':
             try: path.outs[p[1]] = int(p[2])
             except ValueError: path.outs[p[1]] = float.fromhex(p[2])
